@@ -1,7 +1,7 @@
 """C17 (calendar intervals), C16 (time ticks), C14 (nice, linear + time), C15 (time scale), C18 (time zone)."""
 import json, os, subprocess, sys
 from datetime import datetime, timedelta
-from common import Report, build_and_audit, drive, fields, rng_for, leanchecker, REPO, fr, VERIF, PY, Infra
+from common import Report, build_and_audit, drive, fields, rng_for, leanchecker, REPO, fr, VERIF, PY, Infra, time_limit
 
 sys.path.insert(0, REPO)
 EPOCH = datetime(1970, 1, 1)
@@ -94,7 +94,8 @@ def body_c17(tier, seed, rep, only_prop=False, scale=1):
 
     def guarded(fn, meta):
         try:
-            add(fn(), meta)
+            with time_limit(10):
+                add(fn(), meta)
         except Exception as e:
             rep.prop_fail.append(("calendar interval raised %s: %s" % (type(e).__name__, e), {"case": meta}))
 
@@ -158,8 +159,9 @@ def body_c16(tier, seed, rep, only_prop=False, scale=1):
         m = rng.choice([None, 10, 2, 3, 4, 5, 7, 12, 20, 33, 50])
         meta = {"kind": "tticks", "d0": d0, "d1": d1, "m": m}
         try:
-            s = TimeScale().domain([to_dt(d0), to_dt(d1)])
-            tk = s.ticks(m) if m is not None else s.ticks()
+            with time_limit(10):
+                s = TimeScale().domain([to_dt(d0), to_dt(d1)])
+                tk = s.ticks(m) if m is not None else s.ticks()
             lines.append("tticks|%d|%d|%s|%s" % (d0, d1, fr(10 if m is None else m), msl(tk))); metas.append(meta)
         except Exception as e:
             rep.prop_fail.append(("ticks() raised %s: %s" % (type(e).__name__, e), {"case": meta}))
